@@ -13,7 +13,11 @@ for m in re.finditer(r"failure target=(\S+) signature=(.*)\nVIOLATION property=C
     if (target, sig) in have:
         continue
     tdir = target.replace(':', '_')
-    idx = len([f for f in k['findings'] if f['property'] == 'C09' and f.get('target') == target]) + 1
+    used = {f['id'] for f in k['findings']}
+    idx = 1
+    while ("C09-%s-%02d" % (tdir, idx)) in used or os.path.exists("/verif/findings/C09/%s.%02d" % (tdir, idx)) \
+            or os.path.exists("/verif/corpus/C09/%s/%s.%02d" % (tdir, tdir, idx)):
+        idx += 1
     fid = "C09-%s-%02d" % (tdir, idx)
     dst = "findings/C09/%s.%02d" % (tdir, idx)
     shutil.copy(path, os.path.join('/verif', dst))
